@@ -37,6 +37,52 @@ def build(name="SH"):
     return m
 
 
+def build2(name="SH2"):
+    """shapes that need explicit tagging: untagged CHOICE members (tag2el search), long OPTIONAL runs in front of members that
+    are decoded piecewise, the same inside SET"""
+    m = Module(name, "EXPLICIT")
+    # member names are unique module-wide: asn1c derives C names of inline types from them
+    pair = lambda x: Type("SEQUENCE", comps=[Comp("a" + x, Type("INTEGER")), Comp("b" + x, Type("INTEGER"))])
+    body = lambda x: Type("CHOICE", comps=[Comp("text" + x, Type("UTF8String")), Comp("raw" + x, Type("OCTET STRING")), Comp("pair" + x, pair(x)),
+                                           Comp("lst" + x, Type("SEQUENCE OF", elem=Type("IA5String"), tag=("C", 0, "IMPLICIT")))])
+    m.add("T1", Type("SEQUENCE", comps=[Comp("id1", Type("INTEGER")), Comp("body1", body("1")), Comp("flag1", Type("BOOLEAN"))]))
+    m.add("T2", Type("SEQUENCE", comps=[Comp("o%d" % i, Type("INTEGER" if i % 2 else "BOOLEAN", tag=("C", i, "IMPLICIT")), optional=True) for i in range(10)] +
+               [Comp("tail", Type("OCTET STRING", tag=("C", 10, "IMPLICIT")), optional=True),
+                Comp("tail2", Type("SEQUENCE", comps=[Comp("a2", Type("INTEGER")), Comp("s2", Type("IA5String"))], tag=("C", 11, "IMPLICIT")), optional=True),
+                Comp("end", Type("BOOLEAN"))]))
+    m.add("T3", Type("SET", comps=[Comp("id3", Type("INTEGER")), Comp("body3", body("3")), Comp("flag3", Type("BOOLEAN")),
+                                   Comp("opt3", Type("SEQUENCE OF", elem=Type("INTEGER"), tag=("C", 7, "IMPLICIT")), optional=True)]))
+    m.add("T4", Type("SEQUENCE", comps=[Comp("c1", Type("CHOICE", comps=[Comp("a4", Type("SEQUENCE OF", elem=Type("UTF8String"), tag=("C", 0, "IMPLICIT"))),
+                                                                        Comp("b4", Type("IA5String", tag=("C", 1, "IMPLICIT")))]), optional=True),
+                                        Comp("c2", Type("CHOICE", comps=[Comp("x4", pair("5")), Comp("y4", Type("BIT STRING"))]))],
+               ext=[Comp("e1", Type("CHOICE", comps=[Comp("p4", Type("OCTET STRING", tag=("C", 5, "IMPLICIT"))),
+                                                     Comp("q4", Type("SEQUENCE OF", elem=Type("BOOLEAN"), tag=("C", 6, "IMPLICIT")))]), optional=True)]))
+    for t in m.types.values():
+        _gen._set_module(t, m)
+    m.finalize()
+    return m
+
+
+def values2(mod, name, rng, quick):
+    def bodies(x):
+        return [("text" + x, "héllo wörld"), ("text" + x, ""), ("raw" + x, b"\x01\x02\x03\x04\x05\x06"), ("raw" + x, b""),
+                ("pair" + x, {"a" + x: 1, "b" + x: -70000}), ("lst" + x, ["ab", "", "cde"]), ("lst" + x, [])]
+    out = []
+    if name == "T1":
+        out = [{"id1": 42, "body1": b, "flag1": True} for b in bodies("1")]
+    elif name == "T2":
+        out = [{"end": True}, {"tail": b"\x01\x02\x03\x04\x05", "end": False}, {"tail2": {"a2": 300, "s2": "xyz"}, "end": True},
+               {"o9": 5, "tail": b"\xaa\xbb\xcc", "tail2": {"a2": -1, "s2": "q"}, "end": False}, {"o0": True, "o8": False, "tail2": {"a2": 0, "s2": ""}, "end": True},
+               dict([("o%d" % i, (i if i % 2 else bool(i & 2))) for i in range(10)] + [("tail", b"zz"), ("tail2", {"a2": 7, "s2": "all"}), ("end", False)])]
+    elif name == "T3":
+        out = [{"id3": 7, "body3": b, "flag3": False} for b in bodies("3")] + [{"id3": 1, "body3": ("pair3", {"a3": 0, "b3": 0}), "flag3": True, "opt3": [1, 2, 300]}]
+    elif name == "T4":
+        out = [{"c2": ("x4", {"a5": 5, "b5": 6})}, {"c2": ("y4", (b"\xa5\x80", 9))}, {"c1": ("a4", ["é", "zz"]), "c2": ("x4", {"a5": -1, "b5": 1})},
+               {"c1": ("b4", "ia5"), "c2": ("y4", (b"", 0))}, {"c2": ("x4", {"a5": 1, "b5": 2}), "e1": ("p4", b"\x00\x01\x02")},
+               {"c1": ("a4", []), "c2": ("y4", (b"\x80", 1)), "e1": ("q4", [True, False, True])}]
+    return out
+
+
 LEN_16K = sorted(set(b + d for b in (16384, 32768, 49152, 65536) for d in range(-4, 3)))
 
 
